@@ -189,6 +189,7 @@ func checkRoute(c *Ctx, p *Program, fn *ssa.Function, g string, hasCofactor, has
 			// delegation to the map that already clears the cofactor
 			clears = append(clears, x)
 			isos = append(isos, x)
+			deleg[x.in] = true
 		default:
 			// delegation to a helper of the package every successful return of which has passed
 			// through ClearCofactor (hashToG1Jac): the call stands for the clearing; the helper's
